@@ -46,6 +46,25 @@ impl<I: Interner> SLGSolver<I> {
         }
         out
     }
+
+    /// Verification hook: the number of tables that hold a complete
+    /// trivial answer (the one that makes `pursue_answer` discard the
+    /// remaining strands) next to other answers that arrived before it.
+    pub fn verif_tables_with_subsumed_answers(&mut self, interner: I) -> usize {
+        let mut n = 0;
+        for table in &mut self.forest.tables {
+            let answers = table.verif_answers();
+            let trivial = answers.iter().any(|a| {
+                !a.ambiguous
+                    && table.table_goal.is_trivial_substitution(interner, &a.subst)
+                    && a.subst.value.constraints.is_empty(interner)
+            });
+            if trivial && answers.len() > 1 {
+                n += 1;
+            }
+        }
+        n
+    }
 }
 
 impl<I: Interner> fmt::Debug for SLGSolver<I> {
